@@ -591,6 +591,12 @@ impl PairMonitor {
                         (6, "distance", distance, o.6.calculate(&ta, &tb), Builtins::Distance(kind).calculate(&ta, &tb)),
                         (7, "mutation", mutation, o.7.calculate(&ta, &tb), Builtins::Mutation(kind).calculate(&ta, &tb)),
                     ];
+                    // the Default impl is one more documented way to obtain a Distance
+                    if k == 0 {
+                        let dv = Distance::default().calculate(&ta, &tb);
+                        let nv = o.6.calculate(&ta, &tb);
+                        out.check(dv.to_bits() == nv.to_bits(), "C04", "default_ne_new/distance", || format!("Distance::default()({a},{b}) = {dv}, Distance::new() gives {nv}"));
+                    }
                     for (ai, name, exp, sval, bval) in algos {
                         bump(&mut out.events, "Similarity::calculate");
                         bump(&mut out.events, "Builtins::calculate");
@@ -940,6 +946,9 @@ impl Monitor for PairMonitor {
             v.extend(super::group::plan(tier));
         }
         v.push("real:0".to_string());
+        if self.prop != "C12" {
+            v.push("manyterms:0".to_string());
+        }
         if self.prop == "C04" {
             v.push("manyrec:0".to_string());
         }
@@ -994,6 +1003,9 @@ impl Monitor for PairMonitor {
         };
         let mut v: Vec<String> = v.into_iter().filter(|s| !s.contains('|')).map(str::to_string).collect();
         v.push("alternating_ontologies".to_string());
+        if self.prop != "C12" {
+            v.push("more_than_65535_terms".to_string());
+        }
         v
     }
 
@@ -1131,6 +1143,52 @@ impl Monitor for PairMonitor {
             out.bucket("chain_longer_than_256_links");
             out.case = case_json(&sc);
             PairCase { sc, ont, obs, model, subset: Some(subset.into_iter().collect()) }
+        } else if label.starts_with("manyterms") {
+            // more terms than a 16-bit index can address; the terms that are queried are added LAST
+            let mut f = crate::facts::FactSet::default();
+            let mk = |id: u32, name: String| crate::facts::TermFact { id, name, obsolete: false, replaced_by: None };
+            f.terms.push(mk(1, "root".into()));
+            f.terms.push(mk(118, "phenotype".into()));
+            f.edges.push((118, 1));
+            let n_fill = 65_530 + rng.range(0, 200) as u32;
+            for i in 0..n_fill {
+                let id = 1000 + i * 2;
+                f.terms.push(mk(id, String::new()));
+                f.edges.push((id, 118));
+            }
+            // a small multi-parent region at the end: 9_000_001 <- {2,3} <- 4 <- 5, shortcut 5 -> 9_000_001
+            let b = 9_000_000u32;
+            for j in 1..=5u32 {
+                f.terms.push(mk(b + j, format!("late {j}")));
+            }
+            f.edges.extend([(b + 1, 118), (b + 2, b + 1), (b + 3, b + 1), (b + 4, b + 2), (b + 4, b + 3), (b + 5, b + 4), (b + 5, b + 1)]);
+            let path = if rng.chance(1, 2) { PathKind::BuilderMinimal } else { PathKind::BytesV2 };
+            let built = match path {
+                PathKind::BuilderMinimal => crate::drive::via_builder(&f, None, false),
+                _ => crate::drive::via_bytes(&f, 2).1,
+            };
+            let ont = match built {
+                Ok(o) => o,
+                Err(e) => {
+                    out.violate(self.prop, &format!("construct_failed/{}", path.name()), format!("{e}"));
+                    return out;
+                }
+            };
+            let model = Model::new(&f, false);
+            let ids: Vec<u32> = f.terms.iter().map(|t| t.id).collect();
+            let obs = crate::observe::walk(&ont, &ids, &mut out.events);
+            out.bucket("more_than_65535_terms");
+            out.case = Json::obj().set("kind", Json::s("many terms")).set("terms", Json::us(ids.len())).set("path", Json::s(path.name()));
+            let subset: Vec<u32> = vec![1, 118, 1000, 1000 + 2 * (n_fill - 1), b + 1, b + 2, b + 3, b + 4, b + 5];
+            let sc = StateCase {
+                view: crate::facts::FactSet::default(),
+                facts: crate::facts::FactSet::default(),
+                path,
+                order: crate::drive::OrderMode::AsGiven,
+                shape: "65 5xx filler terms, queried region added last".into(),
+                id_mode: "fixed".into(),
+            };
+            PairCase { sc, ont, obs, model, subset: Some(subset) }
         } else if label.starts_with("manyrec") {
             match many_records_case(&mut rng, &mut out) {
                 Some(pc) => pc,
